@@ -22,10 +22,14 @@
 (*   fatalI    a line earning an internal fatal error (>= 10000)           *)
 (*   uwarn, uerr, ufatal    WARNING / ERROR / FATAL pseudo instructions    *)
 (*   fwd       a forward reference: valid code, forces a second pass       *)
+(*   undef     a reference to a symbol that is never defined: taken for a  *)
+(*             forward reference in pass 1, an error in pass 2             *)
 (*   burstE n, burstW n, burstU n   REPT n of an err / warn / uwarn line   *)
 (*   expect, endexpect      EXPECT 1200 ... ENDEXPECT                      *)
 (*   flag f    an ON/OFF style instruction setting mode flag f             *)
 (*   probe f   a line whose code depends on mode flag f                    *)
+(*   use f     a line using table entry f (a macro / a function defined    *)
+(*             by `flag f`): an error unless f is defined                  *)
 (*   open t    opens construct t and is never closed:                      *)
 (*             if0 if1 mac rept sec str sav pha   (always the last line)   *)
 (*                                                                         *)
@@ -90,6 +94,8 @@ LineStep(o, st, ln, pass) ==
             [] ln.k = "uerr"      -> [st EXCEPT !.d = UserERROR(o, d)]
             [] ln.k = "ufatal"    -> [st EXCEPT !.d = UserFATAL(o, d)]
             [] ln.k = "fwd"       -> [st EXCEPT !.c = [Emit(c, "fwd", FALSE) EXCEPT !.repass = @ \/ pass = 1]]
+            [] ln.k = "undef"     -> IF pass = 1 THEN [st EXCEPT !.c = [Emit(c, "undef", FALSE) EXCEPT !.repass = TRUE]]
+                                     ELSE [st EXCEPT !.d = WrXErrorPos(o, d, NumSymbolUndef)]
             [] ln.k = "burstE"    -> [st EXCEPT !.d = IF ln.n <= 3 THEN Repeat(o, d, NumUnknownInstr, ln.n)
                                                       ELSE RepeatClosed(o, d, NumUnknownInstr, ln.n)]
             [] ln.k = "burstW"    -> [st EXCEPT !.d = IF ln.n <= 3 THEN Repeat(o, d, NumNullResMem, ln.n)
@@ -100,6 +106,9 @@ LineStep(o, st, ln, pass) ==
             [] ln.k = "endexpect" -> [st EXCEPT !.d = CodeENDEXPECT(o, d)]
             [] ln.k = "flag"      -> [st EXCEPT !.c.flags = @ \cup {ln.f}]
             [] ln.k = "probe"     -> [st EXCEPT !.c = Emit(c, ln.f, ln.f \in c.flags)]
+            [] ln.k = "use"       -> IF ln.f \in c.flags THEN [st EXCEPT !.c = Emit(c, ln.f, TRUE)]
+                                     ELSE [st EXCEPT !.d = WrXErrorPos(o, d, IF ln.f = "macro" THEN NumUnknownInstr
+                                                                                ELSE NumUnknownFunction)]
             [] ln.k = "open"      ->
                  CASE ln.t = "if0"  -> [st EXCEPT !.c.ifd = @ + 1, !.c.ifasm = FALSE]
                    [] ln.t = "if1"  -> [st EXCEPT !.c.ifd = @ + 1]
@@ -200,7 +209,7 @@ DeclWarn(o, ln) == CASE ln.k = "warn" -> IF o.werror \/ o.suppw THEN 0 ELSE 1
                      [] ln.k = "burstU" -> IF o.werror THEN 0 ELSE ln.n
                      [] OTHER -> 0
 IsFatalLine(ln) == ln.k \in {"fatalI", "ufatal"}
-Plain(lines) == \A i \in 1..Len(lines) : lines[i].k \notin {"expect", "endexpect", "open"}
+Plain(lines) == \A i \in 1..Len(lines) : lines[i].k \notin {"expect", "endexpect", "open", "use", "undef"}
 RECURSIVE SumTo(_, _, _)
 SumTo(f, lines, n) == IF n = 0 THEN 0 ELSE f[n] + SumTo(f, lines, n - 1)
 \* index of the first fatal line, or Len+1
